@@ -141,23 +141,57 @@ def project_target(e, v, P):
     return [e["n"], pr[0], pr[1]]
 
 
+def synth_kwargs(lay, P):
+    """keyword values for the exposed entries of a layout, decoded from payload P by the harness itself (used where the library's own
+    parser cannot supply them: definitions it cannot parse in this bitfield view)"""
+    import struct
+
+    out = {}
+    for e in lay["lay"]:
+        if e["x"] != 1 or e["n"].startswith("_HP") or e["k"] == "cfg":
+            continue
+        if e["k"] == "x":
+            bits = int.from_bytes(P[e["off"]:e["off"] + e["size"]], "little")
+            out[e["n"]] = (bits >> e["bo"]) & ((1 << e["w"]) - 1)
+            continue
+        t, n = e["t"], e["size"]
+        b = bytes(P[e["off"]:e["off"] + n]) if n >= 0 else bytes(P[e["off"]:])
+        kind = t[:1]
+        if t == "CH":
+            out[e["n"]] = b.decode("ascii", "replace")
+        elif kind in "UEIL":
+            v = int.from_bytes(b, "little", signed=kind == "I")
+            out[e["n"]] = v * float(e["scale"]) if e["sc"] == 1 else v
+        elif kind in "XC":
+            out[e["n"]] = b
+        elif kind == "R" and len(b) == n:
+            out[e["n"]] = struct.unpack("<f" if n == 4 else "<d", b)[0]
+        elif kind == "A":
+            out[e["n"]] = list(b)
+    return out
+
+
 def obs_c15(case):
     """case: {lay, P0: hex, tgt: name, value: python literal as repr, structural}"""
     lay = case["lay"]
     P0 = bytes.fromhex(case["P0"])
     m, cls, mid, pbf = lay["m"], lay["cls"], lay["id"], 1 if lay["pbf"] else 0
     ev = {"prop": "C15", "m": m, "cls": cls, "id": mid, "pbf": pbf, "kw": [], "tgt": [case["tgt"], "?", []], "out": "",
-          "P": [], "structural": case.get("structural", 0)}
+          "P": [], "ser": [], "structural": case.get("structural", 0)}
     msg0, pre, _ = walk.parse_payload(m, cls, mid, pbf, P0)
-    if msg0 is None:
+    keep = set(case.get("keep", ()))
+    if msg0 is None and case.get("synth"):
+        # the library cannot parse this definition in this view (known findings D14 / D17): the keyword values are decoded by the harness
+        kwargs = {k: v for k, v in synth_kwargs(lay, P0).items() if k in keep or k in case["synth"]}
+    elif msg0 is None:
         ev["out"] = "ubx"  # nothing to build from: trivial for the judge
         ev["structural"] = 0
         ev["kw"] = [["?", "bad", []]]
         return ev
-    # supply only the structural attributes (group counts, discriminators) and the target: everything else stays nominal,
-    # so that the expectation does not depend on the (separately tracked) rounding behaviour of scaled fields
-    keep = set(case.get("keep", ()))
-    kwargs = {k: v for k, v in vars(msg0).items() if not k.startswith("_") and k in keep}
+    else:
+        # supply only the structural attributes (group counts, discriminators) and the target: everything else stays nominal,
+        # so that the expectation does not depend on the (separately tracked) rounding behaviour of scaled fields
+        kwargs = {k: v for k, v in vars(msg0).items() if not k.startswith("_") and k in keep}
     good = dict(kwargs)
     good.pop(case["tgt"], None)
     ev["kw"] = abstract_kw(lay, good, P0)
@@ -169,6 +203,11 @@ def obs_c15(case):
     if msg is not None:
         P = msg.payload or b""
         ev["P"] = list(P)
+        try:
+            s = msg.serialize()
+            ev["ser"] = list(s) if isinstance(s, (bytes, bytearray)) else BAD
+        except Exception:  # noqa: BLE001
+            ev["ser"] = BAD
         by, _ = walk.index_layout(lay)
         e = by.get(case["tgt"])
         if e is None:  # reserved (hidden) bit flag
